@@ -923,6 +923,8 @@ def simplify(e):
                 return ast.Constant(value=isinstance(n.ops[0], ast.IsNot))
             if isinstance(l_, ast.Constant) and l_.value is None:
                 return ast.Constant(value=isinstance(n.ops[0], ast.Is))
+        if isinstance(n, ast.UnaryOp) and isinstance(n.op, ast.Not) and isinstance(n.operand, ast.Constant):
+            return ast.Constant(value=not n.operand.value)
         if isinstance(n, ast.IfExp) and isinstance(n.test, ast.Constant):
             return n.body if n.test.value else n.orelse
         if isinstance(n, ast.BoolOp) and any(isinstance(v_, ast.Constant) and isinstance(v_.value, bool) for v_ in n.values):
